@@ -116,6 +116,13 @@ def run(ctx):
         tag = "rvalue" if "&&" in (f.params[0].get("type") or "") else "lvalue"
         ctx.check(not used and ncalls == 0, "R10.2", f, "operand-untouched:" + tag, "the discarding operator<< %s its operand: a disabled statement still evaluates something" % ("uses" if used else "calls a function with"), f)
         ctx.check(okret, "R10.2", f, "returns-stream:" + tag, "the discarding operator<< returns %s" % [fmt(r) for r in rets], f)
+        # ... and is not even copied: the operand is bound by reference (a by-value parameter of class type runs the user's copy
+        # constructor and destructor for a statement that is compiled out - and lets their exceptions escape from it)
+        if len(f.params) > 1:
+            pt = (f.params[1].get("type") or "").strip()
+            nocopy = pt.endswith("&") or bool(f.params[1].get("bits")) or pt.endswith("*") or "(*)" in pt or pt in ("bool", "double", "float", "long double", "char")
+            ctx.check(nocopy, "R10.2", f, "operand-not-copied:" + tag, "the discarding operator<< takes its operand as `%s`, by value: every named operand of class type (a functor with captures, "
+                      "a streamable user value) is copy-constructed and destroyed per insertion of a compiled-out statement" % pt, f, why_ok=pt)
 
     # ---- R10.3: the insertion gate `if (s)` means exactly "the statement was accepted" - the same condition the destructor emits under
     gate = [f for f in fns if f.is_pattern and f.cls == SS and (f.kind == "conversion" or f.name == "operator bool")]
